@@ -113,22 +113,22 @@ def halveCof (x y : Int) (A B : Int) : Int × Int :=
   if A % 2 = 0 ∧ B % 2 = 0 then (hlv A, hlv B) else (hlv (A + y), hlv (B - x))
 
 /-- `while (bn_is_even(u)) { u/=2; halve (A,B) }` -/
-def extBinarStrip (x y : Int) : Nat → Int → Int → Int → Int × Int × Int
+def extBinarStrip (x y : Int) : Nat → Nat → Int → Int → Nat × Int × Int
   | 0, u, A, B => (u, A, B)
   | f + 1, u, A, B =>
     if u ≠ 0 ∧ u % 2 = 0 then
-      let (A', B') := halveCof x y A B
-      extBinarStrip x y f (hlv u) A' B'
+      let AB := halveCof x y A B
+      extBinarStrip x y f (u / 2) AB.1 AB.2
     else (u, A, B)
 
 /-- `while (bn_cmp(u, v) != RLC_EQ) { … }` : state (u, v, A, B, C, D) → (u, C, D) -/
-def extBinarMain (x y : Int) : Nat → Int → Int → Int → Int → Int → Int → Option (Int × Int × Int)
+def extBinarMain (x y : Int) : Nat → Nat → Nat → Int → Int → Int → Int → Option (Nat × Int × Int)
   | 0, _, _, _, _, _, _ => none
   | f + 1, u, v, A, B, C, D =>
     if u = v then some (u, C, D)
     else if v % 2 = 0 then
-      let (C', D') := halveCof x y C D
-      extBinarMain x y f u (hlv v) A B C' D'
+      let CD := halveCof x y C D
+      extBinarMain x y f u (v / 2) A B CD.1 CD.2
     else if v < u then extBinarMain x y f v u C D A B
     else extBinarMain x y f u (v - u) A B (C - A) (D - B)
 
@@ -152,20 +152,19 @@ def gcdExtBinarImp (a b : Int) : Option (Int × Int × Int) :=
   if a = 0 then some ((b.natAbs : Int), 0, 1)
   else if b = 0 then some ((a.natAbs : Int), 1, 0)
   else
-    let (xn, yn, s) := commonTwos (a.natAbs + 1) a.natAbs b.natAbs 0
-    let x : Int := xn
-    let y : Int := yn
-    let (u, A, B) := extBinarStrip x y (xn + 1) x 1 0
-    match extBinarMain x y (2 * (u.toNat + yn) + 2) u y A B 0 1 with
+    let ct := commonTwos (a.natAbs + 1) a.natAbs b.natAbs 0
+    let x : Int := ct.1
+    let y : Int := ct.2.1
+    let st := extBinarStrip x y (ct.1 + 1) ct.1 1 0
+    match extBinarMain x y (2 * (st.1 + ct.2.1) + 2) st.1 ct.2.1 st.2.1 st.2.2 0 1 with
     | none => none
     | some (g, C, D) =>
-      let c : Int := ((g.toNat <<< s : Nat) : Int)
       if g = 0 then none else     -- bn_div by zero would raise; unreachable (g ≥ 1)
-      let x' := x / g
-      let y' := y / g
+      let x' := x / (g : Int)
+      let y' := y / (g : Int)
       match extBinarFix x' y' (hlv x') (hlv y') (fixFuel a b) C D with
       | none => none
-      | some (C', D') => some (c, C', D')
+      | some (C', D') => some (((g <<< ct.2.2 : Nat) : Int), C', D')
 
 def gcdExtBinar (a b : Int) : Option (Int × Int × Int) := (gcdExtBinarImp a b).map (extSign a b)
 
